@@ -56,4 +56,9 @@ TEXT = {
   "level_text": "Exploration: a forbidden spy filter or function in 26/21 syntactic positions reached from `include ... sandboxed` through chains of up to 3 (thorough 4) of 14 carriers (include variants, extends, parent(), import, from-import, macros, apply, for, if, block, set) under two policy types. Each case has four runs: unsandboxed (the occurrence must be live), sandboxed (0 invocations, SecurityViolation, no output), sandboxed-but-allowed (same output as unsandboxed), and an occurrence after the include in the including template over two renders (permissions kept, flag does not leak). Every position x every single carrier and all carrier pairs for six positions are enumerated exhaustively.",
   "level_note": "Confinement is observed through harness-registered spy callbacks; built-in filters/functions are assumed to go through the same two choke points as the spies. Carriers that are function calls themselves (macro names, parent) are allowed by the policy.",
  },
+ "C03": {
+  "technique": "property-based testing (rapid) + exhaustive date-letter pairs; oracle = self-consistency across 8 in-process renders, 3 materialisations of one context description (different map insertion orders, distinct allocations) and 2 fresh OS processes; direct letter-by-letter translator for date formats",
+  "level_text": "Exploration: templates that iterate, filter or print maps (untyped and four typed kinds, nested) and hash literals with 2-8 entries in 24 forms, date filters over all 18 translated letters, and non-basic values (pointers, structs, typed slices, arrays, named types) in 7 print positions; every case rendered 8 times on fresh engines with the context rebuilt from its description in three insertion orders, every fifth case additionally in two fresh processes; all outputs must be byte-identical. Every single letter and ordered letter pair of the date formats is enumerated on three instants against the harness's own translator.",
+  "level_note": "Determinism is inferred from agreement of 8-10 runs (a 2-entry map has two orders: miss probability 2^-7 per case). The direct date oracle is applied only where letters are separated by literals (how Go's layout parser reads adjacent translated pieces is not part of the statement). Known finding F42 (nested pointers / dump() print addresses) is excluded by construction and replayed.",
+ },
 }
